@@ -131,19 +131,22 @@ def keepfilter_polarity(ctx, rep, clause, f: FuncInfo, pred_ret_exprs, elem_attr
 def reaches(ctx, f: FuncInfo, target_pred, depth=6, typed_only=True, _seen=None):
     """Call-graph reachability: does f (transitively, over type-resolved edges) contain a call
     for which target_pred(func, call, targets) is true?  Returns the chain or None."""
+    # breadth first (a function is expanded at its smallest depth: the answer does not depend on the visiting order)
+    from collections import deque
     seen = _seen if _seen is not None else set()
-    if f in seen or depth < 0:
-        return None
-    seen.add(f)
-    for c, tg in ctx.R.calls(f):
-        if target_pred(f, c, tg):
-            return [f"{f.short}:{c.lineno}"]
-    for c, tg in ctx.R.calls(f):
-        for t, h in tg:
-            if isinstance(t, FuncInfo) and (h == "type" or not typed_only):
-                r = reaches(ctx, t, target_pred, depth - 1, typed_only, seen)
-                if r is not None:
-                    return [f"{f.short}:{c.lineno}"] + r
+    todo = deque([(f, depth, [])])
+    while todo:
+        g, d, chain = todo.popleft()
+        if g in seen or d < 0:
+            continue
+        seen.add(g)
+        for c, tg in ctx.R.calls(g):
+            if target_pred(g, c, tg):
+                return chain + [f"{g.short}:{c.lineno}"]
+        for c, tg in ctx.R.calls(g):
+            for t, h in tg:
+                if isinstance(t, FuncInfo) and (h == "type" or not typed_only):
+                    todo.append((t, d - 1, chain + [f"{g.short}:{c.lineno}"]))
     return None
 
 
